@@ -899,3 +899,10 @@ v("d54-twin-sorted-kind-mergesort", "C10", PB,
   "                        by=order_cols, ascending=ascending, kind=\"stable\"", "                        by=order_cols, ascending=ascending, kind=\"mergesort\"", expect="silent")
 v("d54-window-sort-by-all-columns-c27", "C27", PB,
   "                        by=order_cols, ascending=ascending, kind=\"stable\"", "                        by=col_list, ascending=[c not in set(op.reverse) for c in col_list], kind=\"stable\"")
+
+v("d55-compose-blocks-to-rows-ignores-result-names", "C17", "cdata.py",
+  "                        rsi[c] = [landed_in.get(v, v) for v in rsi[c]]\n", "                        rsi[c] = [v for v in rsi[c]]\n")
+
+v("d56-polars-strict-stacking", "C17", PM, '            rows, how="vertical_relaxed"\n', '            rows, how="vertical"\n')
+v("d57-polars-concat-rows-drops-result", "C03", PM, '        return pl.concat(frame_list, how="vertical")\n', '        pl.concat(frame_list, how="vertical")\n')
+v("d57-polars-concat-columns-drops-result", "C03", PM, '        res = pl.concat(frame_list, how="horizontal")\n        return res\n', '        res = pl.concat(frame_list, how="horizontal")\n')
